@@ -18,7 +18,7 @@ inductive Out where
   deriving DecidableEq, Repr
 
 inductive Ret where
-  | unsupported | connClosed | res (r : Res)
+  | unsupported | connClosed | sendFailed | res (r : Res)
   deriving DecidableEq, Repr
 
 structure St where
@@ -33,6 +33,7 @@ structure St where
 
 inductive Ev where
   | pushCall | pushNotify
+  | pushCallLost                           -- `Callback` whose request the channel failed to send
   | peerReply (id : Nat) (payload : Nat)   -- a reply-shaped member is read
   | ctxDone (id : Nat)                     -- the watcher of callback `id` wakes up
   | stop
@@ -43,6 +44,12 @@ def step (s : St) : Ev → St
     if !s.allowPush then { s with refused := .unsupported :: s.refused }
     else if !s.running then { s with refused := .connClosed :: s.refused }
     else { s with nextId := s.nextId + 1, table := s.nextId :: s.table, sent := .call s.nextId :: s.sent }
+  | .pushCallLost =>
+    -- the call has been registered (id consumed, table entry, watcher running) when the Send fails;
+    -- the caller is told at once, the entry stays until its context ends or the server stops
+    if !s.allowPush then { s with refused := .unsupported :: s.refused }
+    else if !s.running then { s with refused := .connClosed :: s.refused }
+    else { s with nextId := s.nextId + 1, table := s.nextId :: s.table, refused := .sendFailed :: s.refused }
   | .pushNotify =>
     if !s.allowPush then { s with refused := .unsupported :: s.refused }
     else if !s.running then { s with refused := .connClosed :: s.refused }
